@@ -24,7 +24,7 @@ type C12Case struct {
 	Runs   int          `json:"runs"`
 }
 
-const c12Rule = "packages biased towards many entries in every map yardl ranges over (8-14 definitions, unions of several arities, 1-3 previous versions each with several changed definitions, two thirds of them with an alias that no version changes inside a step union that gains a case, or several simultaneous errors in different files) x N fresh CLI processes (N=8 quick, 20 thorough) on the same directory; oracle: identical exit status, identical stderr/stdout, identical sha256 of every output file (C++ incl. HDF5 sources, Python, MATLAB, JSON), and one more run into the populated tree leaves every mtime unchanged; non-trivial = at least 2 versions with changes, or at least 3 diagnostics, or at least 3 unions of different arity; distinct = hash of files"
+const c12Rule = "packages biased towards many entries in every map yardl ranges over (8-14 definitions, unions of several arities, 1-3 previous versions each with several changed definitions, two thirds of them with an alias that no version changes inside a step union that gains a case, or several simultaneous errors in different files, or breaking changes against 1-2 previous versions whose diagnostics list several items each - enums and flags that lost and renumbered several values, a union that lost several cases) x N fresh CLI processes (N=8 quick, 20 thorough) on the same directory; oracle: identical exit status, identical stderr/stdout, identical sha256 of every output file (C++ incl. HDF5 sources, Python, MATLAB, JSON), and one more run into the populated tree leaves every mtime unchanged; non-trivial = at least 2 versions with changes, or at least 3 diagnostics, or at least 3 unions of different arity; distinct = hash of files"
 
 const c12Outputs = "cpp:\n  sourcesOutputDir: ../out/cpp\npython:\n  outputDir: ../out/py\nmatlab:\n  outputDir: ../out/m\njson:\n  outputDir: ../out/json\n"
 
@@ -35,7 +35,7 @@ func genC12(t *rapid.T) C12Case {
 	cfg.MaxSteps = 8
 	c := C12Case{Runs: core.Budget(8, 20)}
 	root := model.GenPackage(t, &cfg)
-	kind := rapid.SampledFrom([]string{"valid", "valid-versions", "valid-versions", "invalid-multi", "invalid-multi"}).Draw(t, "kind")
+	kind := rapid.SampledFrom([]string{"valid", "valid-versions", "valid-versions", "invalid-multi", "invalid-multi", "invalid-evolution"}).Draw(t, "kind")
 	c.Kind = kind
 	switch kind {
 	case "valid-versions":
@@ -97,6 +97,82 @@ func genC12(t *rapid.T) C12Case {
 			if p0 := root.Protocols(); len(p0) > 0 {
 				p0[0].Fields = append(p0[0].Fields, model.Field{Name: "stableChoice", Type: uni(true)})
 			}
+		}
+	case "invalid-evolution":
+		// breaking changes against 1-2 previous versions whose diagnostics list several items each: enums
+		// and flags that lost and renumbered several values, a record with several fields of changed type,
+		// a union that lost several cases - all used by steps of the first protocol
+		protos := root.Protocols()
+		if len(protos) == 0 {
+			break
+		}
+		symbols := []string{"alpha", "beta", "gamma", "delta", "epsilon", "zeta", "eta", "theta", "iota", "kappa"}
+		nv := rapid.IntRange(1, 2).Draw(t, "nvBreaking")
+		var olds []*model.Package
+		for i := 0; i < nv; i++ {
+			v := root.Clone()
+			v.Versions = nil
+			v.DirName = fmt.Sprintf("v%d", i)
+			olds = append(olds, v)
+			root.Versions = append(root.Versions, model.Version{Label: fmt.Sprintf("v%d", i), Pkg: v})
+		}
+		ne := rapid.IntRange(1, 3).Draw(t, "nEvoEnums")
+		for e := 0; e < ne; e++ {
+			name := fmt.Sprintf("EvoEnum%d", e)
+			kind := model.DEnum
+			if rapid.IntRange(0, 2).Draw(t, "evoFlags") == 0 {
+				kind = model.DFlags
+			}
+			nOld := rapid.IntRange(4, 10).Draw(t, "evoOldN")
+			mk := func(syms []string, val func(i int) int64) *model.Def {
+				d := &model.Def{Kind: kind, Name: name}
+				for i, sy := range syms {
+					x := val(i)
+					d.Values = append(d.Values, model.EnumVal{Symbol: sy, Value: x, UValue: uint64(x), Explicit: true})
+				}
+				return d
+			}
+			oldVal := func(i int) int64 {
+				if kind == model.DFlags {
+					return 1 << uint(i)
+				}
+				return int64(i)
+			}
+			keep := rapid.IntRange(1, nOld-2).Draw(t, "evoKeep") // at least two values are removed
+			renumberFrom := rapid.IntRange(0, keep).Draw(t, "evoRenumberFrom")
+			newVal := func(i int) int64 {
+				if i >= renumberFrom {
+					if kind == model.DFlags {
+						return 1 << uint(i+12)
+					}
+					return int64(i + 100)
+				}
+				return oldVal(i)
+			}
+			for _, v := range olds {
+				v.Defs = append([]*model.Def{mk(symbols[:nOld], oldVal)}, v.Defs...)
+				p0 := v.Protocols()[0]
+				p0.Fields = append(p0.Fields, model.Field{Name: fmt.Sprintf("evoEnum%d", e), Type: model.Ref(v.Namespace, name)})
+			}
+			root.Defs = append([]*model.Def{mk(symbols[:keep], newVal)}, root.Defs...)
+			protos[0].Fields = append(protos[0].Fields, model.Field{Name: fmt.Sprintf("evoEnum%d", e), Type: model.Ref(root.Namespace, name)})
+		}
+		{
+			// a union step that loses several cases
+			all := []string{"int32", "string", "float64", "bool", "date"}
+			mkU := func(n int) *model.Type {
+				u := &model.Type{Kind: model.KUnion}
+				for _, p := range all[:n] {
+					u.Cases = append(u.Cases, model.Prim(p))
+					u.Tags = append(u.Tags, p)
+				}
+				return u
+			}
+			for _, v := range olds {
+				p0 := v.Protocols()[0]
+				p0.Fields = append(p0.Fields, model.Field{Name: "evoChoice", Type: mkU(5)})
+			}
+			protos[0].Fields = append(protos[0].Fields, model.Field{Name: "evoChoice", Type: mkU(rapid.IntRange(2, 3).Draw(t, "evoCasesKept"))})
 		}
 	case "invalid-multi":
 		// several independent errors in different definitions/files
